@@ -35,7 +35,17 @@ Also model-independent, on every FAILED call (r err): in a fixed root the direct
 to the region before it (create_file, create_dir, rename, remove; in the chain-backed sub-directory the same unless the
 error is NotEnoughSpace, the recorded class "nospace during entry write"); and after every failed rename the library's own
 listing (`list`) of the directory is exactly what it was before the call - in particular the source name is still
-listed."""
+listed.
+
+RESPELL WITH A SECOND MATCH (D27, fixed by 7e5011a): deterministic histories (RESPELL, in the root and in the sub-directory)
+build the situation the existence check of rename_internal used to miss: an entry X whose LONG name folds - through an
+expanding or ASCII-landing case mapping (U+00DF -> SS, U+017F -> S, U+FB01 -> FI, U+0131 -> I) - to the ALIAS the generator
+gives a later entry Y ("s s" -> SS~1), with Y placed first-fit IN FRONT of X (a filler of the same slot count is created
+first and removed again).  rename(Y, alias of Y in some case) resolves to Y itself first; since 7e5011a the remaining
+entries are scanned and the call answers AlreadyExists (Model/DirSlots.other_match), nothing written.  Model and
+implementation are compared as for every other op; model-independent: after EVERY successful op the library's own
+listing must not show two entries whose long names are equal under the executor's case folding (the WDupLong clause of
+C03 evaluated on the listing) - that is the failing input when the scan is missing."""
 import re
 import vlib, namelib, fatimg
 from vlib import hexs
@@ -52,6 +62,40 @@ NAMES = ["a", "B", "b", "A", "file.txt", "File.TXT", "x" * 13, "y" * 14, "z" * 2
          "~tilde", "#hash&amp", ".", "..", "...", " lead", "tr.", "e5å", "€", "averyveryverylongname_that_needs_many_lfn_slots_0123456789.bin",
          "q" * 255, "å" * 100] + FAMILY
 BAD = ["", "bad:name", "que?", "a*b", "x" * 256, "é" * 128, "tab\tname", "\U0001F600smile.txt"]
+
+
+# (filler W, other entry X, source Y, destinations aimed at Y's alias): W and Y need the same number of slots, so that Y lands
+# first-fit in the slots W frees, IN FRONT of X; fold(long name of X) = fold(alias of Y) under char::to_uppercase
+RESPELL = [
+    ("ab", "\u00df~1", "s s", ["ss~1", "SS~1", "Ss~1"]),
+    ("ab", "\u017fs~1", "s s", ["sS~1"]),
+    ("abc", "\ufb01le~1", "fi le", ["file~1", "FILE~1"]),
+    ("ab", "\u0131i~1", "i i", ["ii~1"]),
+    ("ab.txt", "\u00df~1.txt", "s s.txt", ["ss~1.TXT", "SS~1.txt"]),
+    ("w" * 14, "\u00dfabcd~1", "s sabcdefghijk", ["ssabcd~1"]),
+    (None, "\u00df~1", "s s", ["ss~1"]),          # control: X in front of Y - the first match is X (AlreadyExists also before the fix)
+]
+
+
+def respell_ops(fam, prefix):
+    """the D27 situation, then the aimed renames (each must fail with AlreadyExists and change nothing), then controls: a
+    destination nobody matches, and - X gone - the same respelling (now Ok: the entry is rewritten under the new spelling)"""
+    w, x, y, dsts = fam
+    ops = []
+    if w is not None:
+        ops.append(("create_file", prefix + w))
+    ops.append(("create_file", prefix + x))
+    if w is not None:
+        ops.append(("remove", prefix + w))
+    ops.append(("create_file", prefix + y))
+    aimed = []
+    for d in dsts:
+        aimed.append(len(ops)); ops.append(("rename", prefix + y, prefix + d))
+    ops.append(("rename", prefix + y, prefix + "t-" + y))
+    ops.append(("rename", prefix + "t-" + y, prefix + y))
+    ops.append(("remove", prefix + x))
+    ops.append(("rename", prefix + y, prefix + dsts[0]))
+    return ops, aimed
 
 
 NCL = 8     # clusters of the sub-directory chain that are dumped (it owns clusters 2, 3, ..: nothing else allocates)
@@ -340,6 +384,27 @@ def listed_as(e_line, name):
     return (lfn is not None and lfn.upper() == name.upper()) or short.upper() == name.upper()
 
 
+def dup_long(listing, utable):
+    """two entries of a `list` result whose long names are equal under the case folding of the executor's table -> their names,
+    else None"""
+    seen = {}
+    for e in listing:
+        t = list(e)
+        if t and t[0] == "e":
+            t = t[1:]
+        if not t or t[0] == "-":
+            continue
+        try:
+            lfn = bytes.fromhex(t[0]).decode("utf-16-be", "replace")
+        except ValueError:
+            continue
+        k = tuple(namelib.fold(lfn, utable))
+        if k in seen:
+            return (seen[k], lfn)
+        seen[k] = lfn
+    return None
+
+
 def walk(job, res, visit):
     """the region before and after every compared op of one history: visit(op index, op, before region, after region, impl result,
     model directory kind, listing before, listing after).  The model is re-synchronised on the implementation's region after
@@ -398,6 +463,19 @@ def run_stream(rep, tier, seed):
         assert g.root_entries * 32 == g.root_sectors * g.bps        # the dumped region is the whole DiskSlice of the root
         gens.append((ci, False, "", gen_fill_ops(rng, nops, g.root_entries), "dump %d %d" % (g.root_off, g.root_entries * 32), [],
                      ["poke %d %s" % (g.root_off, planted_slots().hex())]))
+    # respell-with-a-second-match histories (D27): every family in a fixed root and in the chain-backed sub-directory
+    respell_aimed = {}           # index into gens -> op indices of the aimed renames
+    for fi, fam in enumerate(RESPELL):
+        for sub in (False, True):
+            ci = fi % len(CONFS)
+            g = geoms[ci]
+            rops, aimed = respell_ops(fam, "d/" if sub else "")
+            respell_aimed[len(gens)] = aimed
+            if sub:
+                gens.append((ci, True, "d/", rops, "dump %d %d" % (g.cluster_off(2), NCL * g.cluster_size),
+                             ["create_dir 0 %s 1" % hexs("d"), "drop_dir 1"], []))
+            else:
+                gens.append((ci, False, "", rops, "dump %d %d" % (g.root_off, g.root_entries * 32), [], []))
     # the histories are run until the aliases the rename_alias ops aim at are those of the run itself
     aliases = [dict() for _ in gens]
     passes = 0
@@ -424,7 +502,8 @@ def run_stream(rep, tier, seed):
         aliases = found
     n_alias_ops = sum(1 for g in gens for op in g[3] if op[0] == "rename_alias")
     n_alias_hit = sum(len(a) for a in aliases)
-    _, table = namelib.upper_table("default")
+    utable, table = namelib.upper_table("default")
+    respell_seen = {}
     mlines = ["upper " + table]
     plan = []              # per model line: (job index, op index, before, after, impl result)
     dist = {}
@@ -487,6 +566,19 @@ def run_stream(rep, tier, seed):
                     rep.violation("rename %r -> %r returned Ok but the directory holds no entry stored under the spelling %r "
                                   "(a rename onto another spelling of the entry's own name, or onto its alias, must store the new spelling: D22)"
                                   % (op[1], op[2], dst), {"script": lines[:marks[oi][1] + 1]})
+        # ---- the WDupLong clause on the library's own listing (independent of the model): no two long names equal under the
+        #      executor's case folding after a successful op whose listing before had none
+        if ir.kind == "ok" and la is not None and lb is not None:
+            da, db = dup_long(la, utable), dup_long(lb, utable)
+            if da is not None and db is None:
+                ndirect += 1
+                rep.violation("after the successful %s %r the directory lists two entries whose long names are equal under case folding "
+                              "(%r and %r): duplicate names (C03 WDupLong; a rename onto another spelling of the source's own name / "
+                              "alias must fail when another entry matches the new name too: D27)" % (op[0], op[1:], da[0], da[1]),
+                              {"script": lines[:marks[oi][2] + 1]})
+        if ji in respell_aimed and oi in respell_aimed[ji]:
+            key = "%s / %s" % (mo[0] + (" " + mo[1] if mo[0] == "err" else ""), ir.kind + (" " + ir.payload.split()[0] if ir.kind == "err" and ir.payload else ""))
+            respell_seen[key] = respell_seen.get(key, 0) + 1
         # ---- failed calls, directly on the implementation (independent of the model)
         if ir.kind == "err":
             ekind = ir.payload.split()[0] if ir.payload else "?"
@@ -536,5 +628,6 @@ def run_stream(rep, tier, seed):
                                       "renames_aimed_at_own_alias": {"generated": n_alias_ops, "alias_found": n_alias_hit, "passes": passes},
                                       "failed_calls_checked_directly": {"%s %s %s" % k3: v for k3, v in sorted(nfailed.items())},
                                       "fixed_root_full_NotEnoughSpace": full_root, "fill_histories": nfill,
-                                      "histories": nscripts + nfill, "configs": [c[0] for c in CONFS] + ["sub-directory (chain, 16 slots/cluster)"]}
+                                      "respell_second_match_D27": {"histories": len(respell_aimed), "aimed_renames (model / library)": respell_seen},
+                                      "histories": nscripts + nfill + len(respell_aimed), "configs": [c[0] for c in CONFS] + ["sub-directory (chain, 16 slots/cluster)"]}
     return nviol
